@@ -14,6 +14,11 @@ Fixpoint queued_all (o : list out) : list (N * qframe) :=
 (* ---------------------------------------------------------------------------------------------
    an explicit reset (SendStream::send_reset, SendResponse::send_reset) *)
 
+Lemma no_push_tl q : no_push q = true -> no_push (tl q) = true.
+Proof. destruct q as [|f q]; auto. destruct f; cbn; auto; discriminate. Qed.
+Lemma no_push_reset_drops r : no_push (s_q r) = true -> no_push (reset_drops r) = true.
+Proof. unfold reset_drops. destruct (s_popen r); auto. apply no_push_tl. Qed.
+
 (* (no_push: the stream's queue holds no unsent PUSH_PROMISE - every stream of a client, every pushed stream; when it
    does, the promised streams are failed together with the dropped promises, see explicit_reset_confined) *)
 Theorem explicit_reset st k code can st' outs r :
@@ -27,15 +32,15 @@ Theorem explicit_reset st k code can st' outs r :
      s_state r' = Closed (CError (EReset (s_id r) code User)) /\
      (* closed cleanly and flushed: no RST_STREAM *)
      (closed_full r = true -> queued_all outs = [] /\ s_q r' = []) /\
-     (* otherwise exactly one RST_STREAM with the caller's code: after the queued HEADERS of a stream not opened
-        yet, else alone (that stream's queued frames are discarded) *)
+     (* otherwise exactly one RST_STREAM with the caller's code: after the HEADERS (the first queued frame) of a
+        stream not opened yet, else alone; everything else that stream had queued is discarded *)
      (closed_full r = false ->
-        queued_all outs = [(s_id r, QReset code)] /\ s_infl r' = (if s_popen r then s_infl r else None) /\
-        s_q r' = (if s_popen r then s_q r ++ [QReset code] else [QReset code]))).
+        queued_all outs = [(s_id r, QReset code)] /\ s_infl r' = None /\
+        s_q r' = (if s_popen r then firstn 1 (s_q r) ++ [QReset code] else [QReset code]))).
 Proof.
   intros Hk Hnp Hs. cbn [step] in Hs. unfold step_send_reset, actions_send_reset in Hs. rewrite Hk in Hs.
   destruct (send_reset_core (s_id r) code User r) as [r1 o1] eqn:Ec.
-  rewrite drop_promises_no_push in Hs by auto. use_res1 Hs.
+  rewrite drop_promises_no_push in Hs by (apply no_push_reset_drops; auto). use_res1 Hs.
   split; [intros; apply kget_put_other; auto|]. split; [reflexivity|].
   unfold send_reset_core in Ec. unfold closed_full.
   destruct (is_reset (s_state r)) eqn:Er.
